@@ -506,12 +506,14 @@ def check(run: Run) -> None:
     facts = gen()
     run.coverage["gen_facts"] = facts
     run.rule = (
-        "functions: random single-expression Python functions (arithmetic, **, //, unary minus, single and chained "
-        "comparisons, conditional expressions, not, math/numpy/builtin table functions, constants, docstrings) plus a wild "
-        "stream with constructs the exporter must refuse (%, and, unknown/nested calls, wrong arity, keywords, other "
-        "statements); models: 1-3 parameters/variables (numeric or initial assignment), 0-2 derived, 1-3 reactions with "
-        "integer, fractional and computed coefficients of either sign; a case is non-trivial if the function has an "
-        "operator/call (math level) or the model has a reaction whose flux is non-zero at a compared state; distinct by content"
+        "functions: a corpus of 18 minimal functions (one per construct the property names + every past failure), then random "
+        "single-expression Python functions (arithmetic, **, //, unary minus, single and chained comparisons, conditional "
+        "expressions, not, truth values as numbers, math/numpy/builtin table functions, constants, docstrings) plus a wild "
+        "stream (35%) with constructs the exporter must refuse (%, and, unknown/nested calls, wrong arity, keywords, other "
+        "statements); models: a corpus of 5, then 1-3 parameters/variables (numeric or initial assignment), 0-2 derived, 1-3 "
+        "reactions with integer, fractional and computed coefficients of either sign, rate laws from the grammar of the "
+        "constructs the property names (18% from the full grammar, 12% wild); a case is non-trivial if the function has an "
+        "operator/call (math level) or the model round-trips / differs at a compared state; distinct by content"
     )
     proofs_ok = run.check_proofs(AREA, PROPS)
     run.assumptions += [
@@ -526,7 +528,13 @@ def check(run: Run) -> None:
         "exercised by the round-trip oracle, not verified",
         "CPython evaluation of the rate functions is modelled by eval_py (exact rationals; bool = 1/0; names that are not "
         "parameters have no value); IdentifierReplacer renaming callee names, nested attributes, non-ASCII names are outside the model",
-        "correspondence harness: generators, Gallina printers, libSBML tree walker, coqc output parser",
+        "correspondence harness: generators, Gallina printers, libSBML tree walker, coqc output parser; the document-level "
+        "correspondence reads the libSBML document sbml.write hands to libsbml.writeSBMLToFile",
+        "oracle limits: points where a NumPy function leaves its domain (NaN) have no value and are skipped; models that cannot "
+        "be evaluated at their initial state cannot be exported (Model._create_cache raises inside write) and are skipped; an "
+        "import that takes more than 20 s is inconclusive (counted as read-timeout); import-side differences of models inside "
+        "the guard of a recorded finding (truth values as numbers; one species with computed coefficients in two reactions) are "
+        "attributed to that finding, whose witness is replayed every run",
     ]
     rng = common.rng_for(run.seed, "c08")
     scratch = common.scratch_dir("c08")
